@@ -431,6 +431,10 @@ def _open(interp, args, kwargs):
     else:
         _effect(interp, "open-w")
         g = ctx.ghost
+        if "fs_non_truncating_opens" in g and not (isinstance(mode, str) and mode.startswith("w")):
+            # 'a', 'r+', 'x' ... keep what the file held: the new content does not REPLACE the old one
+            g["fs_non_truncating_opens"] = SV(INT, ctx.term(g["fs_non_truncating_opens"], INT) + 1)
+        g = ctx.ghost
         if "fs_record_written" in g and "fs_record_open" in g:
             g["fs_record_open"] = SV(BOOL, z3.BoolVal(True))
     return f
